@@ -86,6 +86,10 @@ func scenarioC13I(x *runner.X) {
 	t := x.Tape
 	r := t.SubRand()
 	kind := t.Intn(4)
+	prefetch := t.Bool(0.4) // what the server sets for index files opened over http(s)
+	if prefetch {
+		x.Probe("c13.prefetch")
+	}
 	n := t.Range(1, 40)
 	bucketKnob := t.Pick(4, 16, 10000)
 	if kind == 3 {
@@ -137,6 +141,7 @@ func scenarioC13I(x *runner.X) {
 			if err != nil {
 				return nil, err
 			}
+			ix.Prefetch(prefetch)
 			return &opened{get: func(i int) (string, error) {
 				v, err := ix.Get(keys[i])
 				if err != nil {
@@ -170,6 +175,7 @@ func scenarioC13I(x *runner.X) {
 			if err != nil {
 				return nil, err
 			}
+			ix.Prefetch(prefetch)
 			return &opened{get: func(i int) (string, error) {
 				v, err := ix.Get(keys[i])
 				if err != nil {
@@ -203,6 +209,7 @@ func scenarioC13I(x *runner.X) {
 			if err != nil {
 				return nil, err
 			}
+			ix.Prefetch(prefetch)
 			return &opened{get: func(i int) (string, error) {
 				v, err := ix.Get(keys[i])
 				if err != nil {
@@ -236,6 +243,7 @@ func scenarioC13I(x *runner.X) {
 			if err != nil {
 				return nil, err
 			}
+			ix.Prefetch(prefetch)
 			return &opened{get: func(i int) (string, error) {
 				v, err := ix.Get(keys[i])
 				if err != nil {
